@@ -33,7 +33,7 @@ from harness.translate import status as tr
 THEOREMS = [
     # part A
     "ready_eq_definition", "wait_graph_invariants", "raw_empty_wait_breaks_ready", "stores_record_standing_waits",
-    "release_clears", "blocking_spec", "blocking_spec_sql", "prefix_facts", "mem_blocking_eq_sql_blocking",
+    "release_clears", "announce_on_finished_records_nothing", "announce_alone_left_an_edge_on_finished", "blocking_spec", "blocking_spec_sql", "prefix_facts", "mem_blocking_eq_sql_blocking",
     "mem_sql_diverge_without_premise", "final_not_available",
     # part B
     "wfb_sound", "progress_enabled", "step_decreases", "tree_completes", "deadlock_if_waiting_counts_busy",
@@ -130,7 +130,8 @@ class RefGraph:
         if k == "W":
             if op[1] and op[2]:
                 for x in op[2]:
-                    self.edges.add((op[1], x))
+                    if self.status[x] not in FINALS:   # nothing is recorded as waiting on a finished invocation
+                        self.edges.add((op[1], x))
         elif k == "F":
             self.status[op[1]] = op[2]
             self.edges = {e for e in self.edges if e[1] != op[1]}  # nothing waits on a finished invocation
@@ -645,6 +646,123 @@ def part_b(ctx: Ctx, drv: LeanDriver) -> None:
     ctx.sample({"kind": "tree", "spec": trees[6], "prog": to_prog(trees[6]), "size": tree_size(trees[6])})
 
 
+# ------------------------------------------------------------------------------------------------
+# part C: the callers of the wait graph (`DistributedInvocation.result`, group `.results`)
+# ------------------------------------------------------------------------------------------------
+
+def graph_edges(app) -> list[tuple[str, str]]:  # type: ignore[no-untyped-def]
+    """the recorded wait graph (the property's state anchor), read from the store itself"""
+    o = app.orchestrator
+    if type(o).__name__ == "MemOrchestrator":
+        return sorted((w, x) for w, xs in o.blocking_control.waiting_for.items() for x in xs)
+    from pynenc.util.sqlite_utils import create_sqlite_connection
+
+    with create_sqlite_connection(o.sqlite_db_path) as conn:
+        return sorted((r[0], r[1]) for r in conn.execute(f"SELECT waiter_id, waited_id FROM {o.tables.BLOCKING_EDGES}").fetchall())
+
+
+def result_api(ctx: Ctx) -> None:
+    """A task body that reads sub-task results, executed in this thread with the OTHER actors' steps placed by the harness (the
+    runner's wait hook finishes the awaited sub-task, or it has finished before, or it finishes in the window between the reader's
+    status check and its announcement).  Judged by the property: while the reader waits the sub-task is reported as blocking; once
+    a sub-task has finished nothing is recorded as waiting on it; and the reader, runnable again (RETRY) and awaited by its own
+    parent, is reported as blocking."""
+    from pynenc import context
+    from pynenc.invocation.status import InvocationStatus as S
+
+    cases = [(how, api, fresh) for how in ("finishes-while-waiting", "finished-before", "finishes-in-the-window", "mixed")
+             for api in ("result", "results") for fresh in (False, True)]
+    for kind in ("mem", "sqlite"):
+        for ci, (how, api, fresh) in enumerate(cases):
+            app = make_app(kind, ctx.tmp, app_id=f"c09api{kind}{ci}{ctx.rng.randrange(10**6)}")
+            app.conf.cached_status_time = 0.0
+            t = app.task(T.add)
+            o = app.orchestrator
+            name: dict[str, str] = {}
+
+            def start(inv, who):  # type: ignore[no-untyped-def]
+                o.set_invocation_status(inv.invocation_id, S.PENDING, rctx(who))
+                o.set_invocation_status(inv.invocation_id, S.RUNNING, rctx(who))
+
+            def finish(inv_id):  # type: ignore[no-untyped-def]
+                if o.get_invocation_status(inv_id).is_final():
+                    return
+                inv = app.state_backend.get_invocation(inv_id)
+                start(inv, "rC")
+                o.set_invocation_result(inv, 7, rctx("rC"))
+
+            context.set_current_app(app)
+            grand = t(100, 0)
+            start(grand, "rG")
+            prev = context.swap_dist_invocation_context(app.app_id, grand)
+            parent = t(200, 0)
+            start(parent, "rP")
+            context.swap_dist_invocation_context(app.app_id, parent)
+            kids = [t(1, i) for i in range(3)]
+            name.update({grand.invocation_id: "grand", parent.invocation_id: "parent"})
+            name.update({k.invocation_id: f"kid{i}" for i, k in enumerate(kids)})
+            seen_blocking: list[list[str]] = []
+            problems: list[str] = []
+
+            def wait_hook(parent_id, ids, args=None):  # type: ignore[no-untyped-def]
+                # the reader is waiting now: what it waits for (and is runnable) must be reported as blocking
+                pend = [i for i in ids if not o.get_invocation_status(i).is_final()]
+                rep = set(o.get_blocking_invocations(10))
+                seen_blocking.append(sorted(name.get(i, i) for i in rep))
+                miss = [name[i] for i in pend if i not in rep]
+                if miss:
+                    problems.append(f"the reader waits for {miss} (registered, runnable) but they are not reported as blocking (reported {seen_blocking[-1]})")
+                for i in pend[:1]:
+                    finish(i)
+
+            app.runner.waiting_for_results = wait_hook  # type: ignore[method-assign]
+            real_announce = o.waiting_for_results
+
+            def announce(caller, ids):  # type: ignore[no-untyped-def]
+                if how in ("finishes-in-the-window", "mixed") and caller == parent.invocation_id:
+                    finish(ids[-1])  # the sub-task's own runner completes it between the reader's check and this call
+                return real_announce(caller, ids)
+
+            o.waiting_for_results = announce  # type: ignore[method-assign]
+            if how in ("finished-before", "mixed"):
+                finish(kids[0].invocation_id)
+            if how == "finished-before":
+                finish(kids[1].invocation_id)
+                finish(kids[2].invocation_id)
+            handles = [app.state_backend.get_invocation(k.invocation_id) for k in kids] if fresh else kids
+            try:
+                if api == "result":
+                    got = [h.result for h in handles]
+                else:
+                    from pynenc.invocation.dist_invocation import DistributedInvocationGroup
+
+                    got = list(DistributedInvocationGroup(t, handles).results)
+            except Exception as e:  # noqa: BLE001
+                got = [f"raised {type(e).__name__}: {e}"]
+            finally:
+                o.waiting_for_results = real_announce  # type: ignore[method-assign]
+                context.swap_dist_invocation_context(app.app_id, prev)
+            ctx.count()
+            ctx.distinct(("result-api", kind, how, api, fresh))
+            if sorted(map(str, got)) != ["7", "7", "7"]:
+                problems.append(f"the results read are {got}, expected three times 7")
+            stale = [(name.get(w, w), name.get(x, x)) for w, x in graph_edges(app) if o.get_invocation_status(x).is_final()]
+            if stale:
+                problems.append(f"all three sub-tasks have finished but the wait graph still records {stale} (waiter, awaited)")
+            # the consequence: the reader fails with a retriable error and its own parent waits for it
+            o.set_invocation_status(parent.invocation_id, S.RETRY, rctx("rP"))
+            real_announce(grand.invocation_id, [parent.invocation_id])
+            rep2 = sorted(name.get(i, i) for i in o.get_blocking_invocations(10))
+            if rep2 != ["parent"]:
+                problems.append(f"the reader is in RETRY (runnable), waits for nothing unfinished and is awaited by its parent, but the blocking invocations reported are {rep2}")
+            for pr in problems[:1]:
+                ctx.report(f"result-api[{kind}]:{how}:{api}",
+                           f"[{kind}] a task reads the results of three sub-tasks through {'a group .results' if api == 'results' else '.result'} "
+                           f"({'handles loaded from the store' if fresh else 'the handles the calls returned'}; {how}): " + "; ".join(problems),
+                           {"kind": "result-api", "backend": kind, "how": how, "api": api, "fresh": fresh})
+            flush(app)
+
+
 def run(ctx: Ctx) -> None:
     lean_stage(ctx, tr.gen, THEOREMS)
     drv = LeanDriver()
@@ -655,6 +773,7 @@ def run(ctx: Ctx) -> None:
     try:
         part_a(ctx, drv)
         part_b_poll(ctx, drv)
+        result_api(ctx)
         part_b(ctx, drv)
     finally:
         drv.close()
